@@ -74,9 +74,35 @@ struct Dumper<'tcx> {
     // instance work-list: (def, args) -> key
     inst_seen: BTreeSet<String>,
     inst_queue: VecDeque<(DefId, GenericArgsRef<'tcx>)>,
+    // every enum (of any crate) whose discriminant is read or that is constructed: path -> [(discr, variant)]
+    enums: BTreeMap<String, Vec<(i128, String)>>,
 }
 
 impl<'tcx> Dumper<'tcx> {
+    fn note_enum(&mut self, ty: Ty<'tcx>) {
+        let tcx = self.tcx;
+        let mut t = ty;
+        while let ty::Ref(_, inner, _) = t.kind() {
+            t = *inner;
+        }
+        if let ty::Adt(def, _) = t.kind() {
+            if def.is_enum() {
+                let p = path_of(tcx, def.did());
+                if !self.enums.contains_key(&p) {
+                    let v: Vec<(i128, String)> = def
+                        .discriminants(tcx)
+                        .map(|(vi, d)| {
+                            let sz = d.ty.primitive_size(tcx);
+                            let val = if d.ty.is_signed() { sz.sign_extend(d.val) as i128 } else { d.val as i128 };
+                            (val, def.variant(vi).name.to_string())
+                        })
+                        .collect();
+                    self.enums.insert(p, v);
+                }
+            }
+        }
+    }
+
     fn generic_args(&self, args: GenericArgsRef<'tcx>) -> J {
         J::Arr(
             args.iter()
@@ -336,6 +362,7 @@ impl<'tcx> Dumper<'tcx> {
             ]),
             Rvalue::Discriminant(p) => {
                 let pty = p.ty(&body.local_decls, tcx).ty;
+                self.note_enum(pty);
                 let mut o = vec![("k", s("discr")), ("place", self.place(body, p))];
                 if let Some(a) = adt_path_of_ty(tcx, pty) {
                     o.push(("adt", s(a)));
@@ -353,6 +380,9 @@ impl<'tcx> Dumper<'tcx> {
                     AggregateKind::Adt(did, vidx, args, _, active) => {
                         let def = tcx.adt_def(*did);
                         let v = def.variant(*vidx);
+                        if def.is_enum() {
+                            self.note_enum(tcx.type_of(*did).skip_binder());
+                        }
                         o.push(("kind", s("adt")));
                         o.push(("adt", s(path_of(tcx, *did))));
                         o.push(("variant", s(v.name.to_string())));
@@ -881,6 +911,17 @@ impl<'tcx> Dumper<'tcx> {
             ("traits", J::Obj(traits)),
             ("impls", J::Arr(impls)),
             ("instances", J::Obj(instances)),
+            (
+                "enums",
+                J::Obj(
+                    self.enums
+                        .iter()
+                        .map(|(k, v)| {
+                            (k.clone(), J::Arr(v.iter().map(|(d, n)| J::Arr(vec![J::Int(*d), s(n.clone())])).collect()))
+                        })
+                        .collect(),
+                ),
+            ),
         ]);
         let mut out = String::new();
         doc.write(&mut out);
@@ -904,7 +945,7 @@ impl rustc_driver::Callbacks for Cb {
             return Compilation::Continue;
         }
         let nonce = std::env::var("MIRFACTS_NONCE").unwrap_or_default();
-        let mut d = Dumper { tcx, inst_seen: BTreeSet::new(), inst_queue: VecDeque::new() };
+        let mut d = Dumper { tcx, inst_seen: BTreeSet::new(), inst_queue: VecDeque::new(), enums: BTreeMap::new() };
         d.run(&out_dir, &nonce);
         Compilation::Continue
     }
